@@ -194,6 +194,7 @@ class Contract:
     returns: str = ""
     requires: dict[str, str] = field(default_factory=dict)
     ensures: dict[str, str] = field(default_factory=dict)
+    runtime_ensures: dict[str, str] = field(default_factory=dict)  # postconditions that are only evaluated at run time on the real function (no VC: their vocabulary is opaque to the solver); never counted as proved
     raises: dict[str, str] = field(default_factory=dict)  # Exc -> condition (iff)
     loops: dict[int, LoopSpec] = field(default_factory=dict)
     modifies: list[str] = field(default_factory=list)  # "Rec.field" heap arrays the function may write
